@@ -25,6 +25,10 @@ func TestDebug(t *testing.T) {
 		sp = c11specs()[0]
 	case "C13":
 		sp = c13specs("C13")[0]
+	case "C24":
+		sp = c2324specs("C24")[0]
+	case "C24b":
+		sp = c2324specs("C24")[1]
 	case "C06":
 		sp = c06specs()[0]
 	default:
